@@ -256,6 +256,10 @@ class SrcGen:
         head = ["x0 = PrivVal(I[0])", "x1 = PrivVal(I[1])", "x2 = PrivVal(I[2])"]
         head += ["c%d = PrivValBool(I[%d])" % (k, 3 + k) for k in range(self.ncond)]
         head += ["_ = BranchingValues()", "_.a = x2 + 0"]
+        if r.random() < 0.12:
+            # a context value that cannot be copied (the backup every region entry takes fails): the region never starts, and
+            # nothing of it may stay behind
+            head += ["_.gen = (k for k in range(3))"]
         ints = [r.randint(0, 5), r.randint(0, 6), r.randint(0, 20)]
         return "\n".join(head + self.lines) + "\n", ints + self.conds
 
@@ -406,8 +410,7 @@ class Monitor:
         if not opened:
             return
         rid, ent = opened[-1]            # dicts keep insertion order: the most recently entered open block
-        if name == "_if":
-            return                       # the refusal came before the region existed
+        # (for `_if` that is the region this very call was about to open: its entry triple was recorded just before the call)
         self.R.count("block_calls_refused_by_library")
         if not self.same(ent["triple"], self.triple()):
             self.problems.append(("state-not-restored:block:refused-by-" + name,
